@@ -21,7 +21,8 @@ import (
 // C19 — encrypted SSH identity prompts only on a match and keeps no history.
 
 // StanzaTo names the addressee of one stanza of a reference-written file.
-//   "A" declared key, "B" the other fixture key of the same type, "e<k>"/"r<k>"/"x<k>" world keys.
+//
+//	"A" declared key, "B" the other fixture key of the same type, "e<k>"/"r<k>"/"x<k>" world keys.
 type C19Call struct {
 	Stanzas []string `json:"stanzas"`
 	Answer  string   `json:"answer"` // what the passphrase callback does if asked: "right" | "wrong" | "error"
@@ -29,16 +30,18 @@ type C19Call struct {
 }
 
 type C19Plan struct {
-	Type     string    `json:"type"`     // "ed" | "rsa"
-	Holds    string    `json:"holds"`    // "A" (matched) | "B" (PEM holds another key of the same type) | "X" (PEM holds a key of the OTHER type)
+	Type     string    `json:"type"`  // "ed" | "rsa"
+	Holds    string    `json:"holds"` // "A" (matched) | "B" (PEM holds another key of the same type) | "X" (PEM holds a key of the OTHER type)
 	Rounds16 bool      `json:"rounds16,omitempty"`
 	Calls    []C19Call `json:"calls"`
 }
 
 type C19 struct{}
 
-func (C19) ID() string           { return "C19" }
-func (C19) Title() string        { return "call histories on one EncryptedSSHIdentity vs a two-state reference model; passphrase callback seam" }
+func (C19) ID() string { return "C19" }
+func (C19) Title() string {
+	return "call histories on one EncryptedSSHIdentity vs a two-state reference model; passphrase callback seam"
+}
 func (C19) NewPlan() interface{} { return &C19Plan{} }
 func (C19) Runs(tier string) int {
 	if tier == "thorough" {
@@ -49,8 +52,8 @@ func (C19) Runs(tier string) int {
 
 func (C19) Meta() core.Meta {
 	return core.Meta{
-		Level: "exploration",
-		Rule: "a case = history of 2..6 Decrypt calls on ONE agessh.EncryptedSSHIdentity value (ed25519 in OpenSSH format or RSA in legacy PEM; PEM holding the declared key A, another key B of the same type, or a key of the other type) over reference-written files whose stanza lists address A, B and unrelated keys of the same and of other types in any order, optionally with one crafted stanza (other SSH type carrying A's tag, A's type and tag with a body that does not open, stanzas without arguments); the passphrase callback answers right/wrong/error per plan and counts invocations. Every call's result class (plaintext / no-match / fatal error), plaintext and prompt count must equal the model {validated: bool}. Non-trivial = history contains a prompt; distinct = distinct (type, holds, history skeleton).",
+		Level:       "exploration",
+		Rule:        "a case = history of 2..6 Decrypt calls on ONE agessh.EncryptedSSHIdentity value (ed25519 in OpenSSH format or RSA in legacy PEM; PEM holding the declared key A, another key B of the same type, or a key of the other type) over reference-written files whose stanza lists address A, B and unrelated keys of the same and of other types in any order, optionally with one crafted stanza (other SSH type carrying A's tag, A's type and tag with a body that does not open, stanzas without arguments); the passphrase callback answers right/wrong/error per plan and counts invocations. Every call's result class (plaintext / no-match / fatal error), plaintext and prompt count must equal the model {validated: bool}. Non-trivial = history contains a prompt; distinct = distinct (type, holds, history skeleton).",
 		Assumptions: []string{"fixture keys generated once with ssh-keygen -a 1 (cheap KDF) and committed; stanzas of the identity's type always carry a tag argument"},
 		Real:        []string{"agessh.EncryptedSSHIdentity", "agessh Ed25519/RSA identities", "x/crypto/ssh key parsing", "filippo.io/age Decrypt"},
 		Stub:        []string{"passphrase callback", "files (reference writer)", "source"},
@@ -143,10 +146,10 @@ func (C19) Shrinks(plan interface{}) []interface{} {
 }
 
 type c19Keys struct {
-	pubA        ssh.PublicKey
-	edA, edB    ed25519.PrivateKey
-	rsaA, rsaB  *rsa.PrivateKey
-	pemA, pemB  []byte
+	pubA         ssh.PublicKey
+	edA, edB     ed25519.PrivateKey
+	rsaA, rsaB   *rsa.PrivateKey
+	pemA, pemB   []byte
 	passA, passB string
 }
 
@@ -243,10 +246,10 @@ func (e C19) Execute(plan interface{}, c *core.Ctx) *core.Verdict {
 		}
 		// per stanza, what the identity's own rules make of it
 		type view struct {
-			mine   bool // stanza of the identity's key type
-			noargs bool
-			tagA   bool // carries the declared key's tag
-			opens  bool // honestly wrapped to A
+			mine    bool // stanza of the identity's key type
+			noargs  bool
+			tagA    bool // carries the declared key's tag
+			opens   bool // honestly wrapped to A
 			badargs bool // wrong number of arguments for the type (and another key's tag)
 		}
 		var views []view
